@@ -146,8 +146,9 @@ def shape_sig(t):
 # --------------------------------------------------------------------------
 class TypeGen:
     def __init__(self, rng, *, max_depth=3, refs=True, strings=True, dyn=True, orders=True,
-                 max_nd=3, max_fields=4, max_dim=3, scalars=None, prefix=None, readonly=0.0):
+                 max_nd=3, max_fields=4, max_dim=3, scalars=None, prefix=None, readonly=0.0, ref_defaults=0.0):
         self.readonly = readonly
+        self.ref_defaults = ref_defaults
         self.rng = rng
         self.max_depth, self.refs, self.strings, self.dyn = max_depth, refs, strings, dyn
         self.orders, self.max_nd, self.max_fields, self.max_dim = orders, max_nd, max_fields, max_dim
@@ -189,6 +190,17 @@ class TypeGen:
         nf = r.randint(1, self.max_fields)
         fs = [[f"f{i}", self.any(depth - 1)] for i in range(nf)]
         node = {"k": "st", "n": self.name("S"), "f": fs}
+        if self.ref_defaults:
+            # a reference field may declare a non-null default target (used when the field is not given at all)
+            dflt = {}
+            for fn, ft in fs:
+                if ft["k"] == "ref" and r.random() < self.ref_defaults:
+                    try:
+                        dflt[fn] = plain(ft["to"], ValGen(r, nulls=1.0, zero_dims=0.0).value(ft["to"]))
+                    except Exception:
+                        pass
+            if dflt:
+                node["dflt"] = dflt
         if self.readonly:
             ro = [f[0] for f in fs if f[1]["k"] == "sc" and r.random() < self.readonly]
             if ro:
